@@ -18,7 +18,7 @@ import z3
 from . import smt
 from .smt import Ctx, fresh_int, fresh_bool, fresh_arr, iv, is_conc_int
 from . import values as V
-from .values import (NONE, VBool, VConst, VDict, VExc, VInt, VList, VNone, VObj, VStr, VTuple,
+from .values import (NONE, VBool, VConst, VDict, VExc, VInt, VList, VNone, VObj, VOpt, VStr, VTuple,
                      Unsupported, lit)
 
 REPO = os.environ.get("PYVC_REPO", "/repo")
@@ -52,12 +52,14 @@ class St:
     def fork(self):
         s = St(self.ex)
         memo = {}
-        s.env = {k: _clone(v, memo) for k, v in self.env.items()}
+        s.env = _clone_env(self.env, memo)
         s.ctx = self.ctx.copy()
-        for attr in ("memo", "dec_apps", "opaque"):
+        for attr in ("memo", "dec_apps", "opaque", "fn_apps"):
             if hasattr(self.ctx, attr):
                 val = getattr(self.ctx, attr)
                 setattr(s.ctx, attr, dict(val) if isinstance(val, dict) else list(val))
+        if hasattr(self.ctx, "views"):
+            s.ctx.views = {k: list(v) for k, v in self.ctx.views.items()}
         s.pc = list(self.pc)
         s.guards = list(self.guards)
         s.handled = list(self.handled)
@@ -66,7 +68,7 @@ class St:
         return s
 
     def assume(self, c):
-        self.ctx.add(c)
+        self.ctx.assume(c)
         self.pc.append(c)
 
     def feasible(self):
@@ -74,6 +76,18 @@ class St:
 
     def guard_cond(self):
         return z3.And(self.guards) if self.guards else z3.BoolVal(True)
+
+
+def _clone_env(env, memo):
+    out = {}
+    for k, v in env.items():
+        if k == "__caller_env__":
+            out[k] = _clone_env(v, memo)
+        elif k == "__globals__":
+            out[k] = v
+        else:
+            out[k] = _clone(v, memo)
+    return out
 
 
 def _clone(v, memo):
@@ -157,6 +171,10 @@ class BoundMethod(V.V):
         self.name = name
 
 
+class Unmergeable(Exception):
+    pass
+
+
 class Raised(V.V):
     """result of an expression whose evaluation raised: propagated as a value so that the
     remaining alternatives of every enclosing generator are still explored"""
@@ -177,6 +195,9 @@ class Executor:
         self.npaths = 0
         self.max_paths = max_paths
         self.ob_timeout_ms = 5000
+        self.merging = True
+        self.merge_q = 0
+        self.feas_timeout_ms = 300
         self.loop_specs = loop_specs or {}   # (func qual, ordinal) -> LoopSpec
         self.loop_counter = {}
         self.inlined = set()
@@ -277,6 +298,8 @@ class Executor:
             return v.t != 0
         if isinstance(v, VNone):
             return z3.BoolVal(False)
+        if isinstance(v, VOpt):
+            return z3.And(z3.Not(v.isnone), self.truth(st, v.val))
         if isinstance(v, VStr):
             if v.conc is not None:
                 return z3.BoolVal(len(v.conc) > 0)
@@ -302,8 +325,7 @@ class Executor:
         if z3.is_false(c):
             yield False, st
             return
-        f1 = self.sol.check(c) != z3.unsat
-        f2 = self.sol.check(z3.Not(c)) != z3.unsat
+        f1, f2 = self.split2(st, c)
         if f1 and not f2:
             st.assume(c)
             yield True, st
@@ -342,7 +364,7 @@ class Executor:
             return
         self.oblige(st, name, "safety", c, node, info={"exception": exc_cls.__name__})
         if not st.guards:
-            st.ctx.add(c)
+            st.ctx.assume(c)
         yield "ok", st
 
     def catchable(self, st, exc_cls):
@@ -350,6 +372,195 @@ class Executor:
             if any(issubclass(exc_cls, c) for c in classes):
                 return True
         return False
+
+
+    # ------------------------------------------------------------ state merging
+    def merge_value(self, c, a, b, ctx):
+        """value that equals a when c holds and b otherwise"""
+        if a is b:
+            return a
+        if isinstance(a, VInt) and isinstance(b, VInt):
+            if a.t.get_id() == b.t.get_id():
+                return a
+            return VInt(V.name_term(ctx, z3.If(c, a.t, b.t), "m"))
+        if isinstance(a, VBool) and isinstance(b, VBool):
+            if a.t.get_id() == b.t.get_id():
+                return a
+            return VBool(z3.If(c, a.t, b.t))
+        if isinstance(a, VNone) and isinstance(b, VNone):
+            return NONE
+        if isinstance(a, VStr) and isinstance(b, VStr) and a.kind == b.kind:
+            if a.conc is not None and b.conc is not None:
+                if a.conc == b.conc:
+                    return a
+                raise Unmergeable()      # keep constants concrete (loops over them are unrolled)
+            # `if X in s: s = s.replace(X, "")`: the removal result equals s when X is absent
+            # (library contract of replace), so it stands for both arms
+            for r, o in ((a, b), (b, a)):
+                rf = r.tags.get("removed_from")
+                if rf is not None and rf[0].a.get_id() == o.a.get_id() and \
+                        rf[0].lo.get_id() == o.lo.get_id() and rf[0].hi.get_id() == o.hi.get_id():
+                    return r
+            if self.merging != "all" and a.a.get_id() != b.a.get_id():
+                raise Unmergeable()      # light policy: no ite over different arrays
+            arr = smt.arr_ite(c, a.a, b.a)
+            lo = V.name_term(ctx, z3.If(c, a.lo, b.lo), "mlo") if a.lo.get_id() != b.lo.get_id() else a.lo
+            hi = V.name_term(ctx, z3.If(c, a.hi, b.hi), "mhi") if a.hi.get_id() != b.hi.get_id() else a.hi
+            return VStr(arr, lo, hi, kind=a.kind)
+        if isinstance(a, (VNone, VOpt)) or isinstance(b, (VNone, VOpt)):
+            an = z3.BoolVal(True) if isinstance(a, VNone) else (a.isnone if isinstance(a, VOpt) else z3.BoolVal(False))
+            bn = z3.BoolVal(True) if isinstance(b, VNone) else (b.isnone if isinstance(b, VOpt) else z3.BoolVal(False))
+            av = None if isinstance(a, VNone) else (a.val if isinstance(a, VOpt) else a)
+            bv = None if isinstance(b, VNone) else (b.val if isinstance(b, VOpt) else b)
+            if av is None:
+                av = bv
+            if bv is None:
+                bv = av
+            if not isinstance(av, (VStr, VInt, VBool)) or type(av) is not type(bv):
+                raise Unmergeable()
+            return VOpt(z3.simplify(z3.If(c, an, bn)), self.merge_value(c, av, bv, ctx))
+        if isinstance(a, VTuple) and isinstance(b, VTuple) and len(a.items) == len(b.items):
+            return VTuple([self.merge_value(c, x, y, ctx) for x, y in zip(a.items, b.items)])
+        if isinstance(a, VList) and isinstance(b, VList) and len(a.items) == len(b.items) and a.fresh == b.fresh:
+            return VList([self.merge_value(c, x, y, ctx) for x, y in zip(a.items, b.items)], a.fresh)
+        if isinstance(a, VDict) and isinstance(b, VDict) and a.d.keys() == b.d.keys() and a.fresh == b.fresh:
+            return VDict({k: self.merge_value(c, a.d[k], b.d[k], ctx) for k in a.d}, a.fresh)
+        if isinstance(a, VObj) and isinstance(b, VObj) and a.cls == b.cls and a.fields.keys() == b.fields.keys():
+            return VObj(a.cls, {k: self.merge_value(c, a.fields[k], b.fields[k], ctx) for k in a.fields}, a.fresh and b.fresh)
+        if isinstance(a, VConst) and isinstance(b, VConst) and a.obj is b.obj:
+            return a
+        if isinstance(a, VExc) and isinstance(b, VExc) and a.cls is b.cls:
+            return a
+        raise Unmergeable()
+
+    def merge_states(self, c, n0, s1, s2):
+        """join of the two arms of a conditional: s1 was explored under c, s2 under not c, both
+        from a state with n0 = (#facts, #qfacts, #bounds).  Definitional facts (library
+        contracts: conservative extensions) of both arms are kept; facts that hold only on a
+        path (conditions, checked assumptions) are guarded by the arm's condition."""
+        nf, nq, nb = n0
+        if s1.handled != s2.handled or len(s1.guards) != len(s2.guards):
+            raise Unmergeable()
+        m = St(self)
+        m.ctx = Ctx(self.sol)
+        m.ctx.facts = list(s1.ctx.facts[:nf])
+        m.ctx.qfacts = list(s1.ctx.qfacts[:nq])
+        m.ctx.bounds = list(s1.ctx.bounds[:nb])
+        m.ctx.cond = {i for i in s1.ctx.cond if i < nf}
+        for attr in ("memo", "opaque"):
+            d = {}
+            for sx in (s2, s1):
+                d.update(getattr(sx.ctx, attr, {}) or {})
+            setattr(m.ctx, attr, d)
+        m.ctx.views = {}
+        for sx in (s1, s2):
+            for k, lst in (getattr(sx.ctx, "views", {}) or {}).items():
+                tgt = m.ctx.views.setdefault(k, [])
+                for w in lst:
+                    if not any(w is x for x in tgt):
+                        tgt.append(w)
+        for attr in ("dec_apps", "fn_apps"):
+            apps = list(getattr(s1.ctx, attr, []) or [])
+            for x in getattr(s2.ctx, attr, []) or []:
+                if not any(x is y for y in apps):
+                    apps.append(x)
+            setattr(m.ctx, attr, apps)
+        # values first (may raise Unmergeable before anything is asserted)
+        scratch = Ctx(None)
+        scratch.memo = {}
+        env = {}
+        for k in list(s1.env.keys()) + [k for k in s2.env if k not in s1.env]:
+            if k in s1.env and k in s2.env:
+                if k in ("__globals__", "__caller_env__"):
+                    env[k] = s1.env[k]
+                else:
+                    env[k] = self.merge_value(c, s1.env[k], s2.env[k], scratch)
+            else:
+                env[k] = s1.env.get(k, s2.env.get(k))
+        # caller frames (a conditional inside a callee): merge them too
+        if "__caller_env__" in s1.env:
+            env["__caller_env__"] = self.merge_envs(c, s1.env["__caller_env__"], s2.env["__caller_env__"], scratch)
+        ghost = {}
+        for k in s1.ghost:
+            if k in s2.ghost:
+                ghost[k] = self.merge_value(c, s1.ghost[k], s2.ghost[k], scratch)
+        # now assert
+        for sx, cx in ((s1, c), (s2, z3.Not(c))):
+            for i in range(nf, len(sx.ctx.facts)):
+                f = sx.ctx.facts[i]
+                if i == nf:
+                    continue            # the arm's own condition
+                if i in sx.ctx.cond:
+                    m.ctx.assume(z3.Implies(cx, f))
+                else:
+                    m.ctx.add(f)
+            for q in sx.ctx.qfacts[nq:]:
+                m.ctx.qfacts.append(q)
+                self.sol.add_q(q)
+            for b in sx.ctx.bounds[nb:]:
+                m.ctx.bound(b)
+        m.ctx.add(*scratch.facts)
+        for b in scratch.bounds:
+            m.ctx.bound(b)
+        m.env = env
+        m.ghost = ghost
+        k = 0
+        while k < len(s1.pc) and k < len(s2.pc) and s1.pc[k].get_id() == s2.pc[k].get_id():
+            k += 1
+        m.pc = s1.pc[:k]
+        m.guards = list(s1.guards)
+        m.handled = list(s1.handled)
+        self.nmerges = getattr(self, "nmerges", 0) + 1
+        return m
+
+    def merge_envs(self, c, e1, e2, ctx):
+        if e1 is e2:
+            return e1
+        out = {}
+        for k in list(e1.keys()) + [k for k in e2 if k not in e1]:
+            if k in e1 and k in e2:
+                if k == "__globals__":
+                    out[k] = e1[k]
+                elif k == "__caller_env__":
+                    out[k] = self.merge_envs(c, e1[k], e2[k], ctx)
+                else:
+                    out[k] = self.merge_value(c, e1[k], e2[k], ctx)
+            else:
+                out[k] = e1.get(k, e2.get(k))
+        return out
+
+    def light(self, n0, s1, s2):
+        """merge policy: join two arms only when neither introduced quantified facts
+        (merged queries with many guarded quantifier instances are much slower than forks)"""
+        return True
+
+    def force(self, st, vals, i=0):
+        """split VOpt values of a list into the None / not-None cases; yields (list, st)"""
+        while i < len(vals) and not isinstance(vals[i], VOpt):
+            i += 1
+        if i == len(vals):
+            yield vals, st
+            return
+        v = vals[i]
+        for b, s2 in self.branch(st, v.isnone):
+            nv = list(vals)
+            nv[i] = NONE if b else v.val
+            yield from self.force(s2, nv, i + 1)
+
+    def split2(self, st, cond):
+        """feasibility of both sides of a condition: (f1, f2).  'Both feasible' answers are
+        cached per path (remaining both-feasible later is a sound over-approximation)."""
+        memo = getattr(st.ctx, "memo", None)
+        if memo is None:
+            memo = st.ctx.memo = {}
+        key = ("split", cond.get_id())
+        if key in memo:
+            return True, True
+        f1 = self.sol.check(cond, timeout_ms=self.feas_timeout_ms) != z3.unsat
+        f2 = self.sol.check(z3.Not(cond), timeout_ms=self.feas_timeout_ms) != z3.unsat if f1 else True
+        if f1 and f2:
+            memo[key] = True
+        return f1, f2
 
     # ------------------------------------------------------------ expressions
     def eval(self, e, st):
@@ -364,6 +575,41 @@ class Executor:
         if len(outs) != 1:
             raise Unsupported(f"expression forks ({len(outs)}) at {self.where(e)}")
         return outs[0]
+
+    def eval_cond(self, e, st):
+        """evaluate an expression in boolean context: yields (z3 Bool | Raised, st).
+        and / or / not over operands that evaluate without forking are combined into one
+        formula (operand i is evaluated under the guard of operands < i, so its safety
+        obligations are conditional); otherwise the generic forking evaluation is used."""
+        if isinstance(e, ast.UnaryOp) and isinstance(e.op, ast.Not):
+            for t, s2 in self.eval_cond(e.operand, st):
+                yield (t if isinstance(t, Raised) else z3.Not(t)), s2
+            return
+        if isinstance(e, ast.BoolOp):
+            is_and = isinstance(e.op, ast.And)
+            terms = []
+            ok = True
+            pushed = 0
+            try:
+                for sub in e.values:
+                    outs = list(self.eval_cond(sub, st))
+                    if len(outs) != 1 or isinstance(outs[0][0], Raised) or outs[0][1] is not st:
+                        ok = False
+                        break
+                    t = outs[0][0]
+                    terms.append(t)
+                    st.guards.append(t if is_and else z3.Not(t))
+                    pushed += 1
+            finally:
+                for _ in range(pushed):
+                    st.guards.pop()
+            if ok:
+                yield (z3.And(terms) if is_and else z3.Or(terms)), st
+                return
+            if terms:
+                raise Unsupported(f"boolean operator with a forking operand after a non-forking one at {self.where(e)}")
+        for v, s2 in self.eval(e, st):
+            yield (v if isinstance(v, Raised) else self.truth(s2, v)), s2
 
     def e_Constant(self, e, st):
         if e.value is Ellipsis:
@@ -424,6 +670,8 @@ class Executor:
             if isinstance(items, Raised):
                 yield items, s2
                 continue
+            if any(isinstance(x, VOpt) for x in items):
+                raise Unsupported("f-string of a merged optional value")
             strs = []
             for p, v in zip(parts, items):
                 if isinstance(p, ast.FormattedValue):
@@ -455,14 +703,62 @@ class Executor:
             yield v, s2
 
     def e_IfExp(self, e, st):
-        for c, s2 in self.eval(e.test, st):
+        for c, s2 in self.eval_cond(e.test, st):
             if isinstance(c, Raised):
                 yield c, s2
                 continue
-            for b, s3 in self.branch(s2, self.truth(s2, c)):
-                yield from self.eval(e.body if b else e.orelse, s3)
+            cond = z3.simplify(c)
+            if z3.is_true(cond) or z3.is_false(cond):
+                yield from self.eval(e.body if z3.is_true(cond) else e.orelse, s2)
+                continue
+            if s2.guards:
+                # inside a non-forking boolean: both arms must be plain values
+                a, _ = self.eval1(e.body, s2)
+                b, _ = self.eval1(e.orelse, s2)
+                yield self.merge_value(cond, a, b, s2.ctx), s2
+                continue
+            f1, f2 = self.split2(s2, cond)
+            if not (f1 and f2):
+                if f1 or f2:
+                    s2.assume(cond if f1 else z3.Not(cond))
+                    yield from self.eval(e.body if f1 else e.orelse, s2)
+                continue
+            n0 = (len(s2.ctx.facts), len(s2.ctx.qfacts), len(s2.ctx.bounds))
+            other = s2.fork()
+            results = []
+            for b, sb, sub in ((True, s2, e.body), (False, other, e.orelse)):
+                self.sol.push()
+                try:
+                    sb.assume(cond if b else z3.Not(cond))
+                    for v, s3 in self.eval(sub, sb):
+                        results.append((b, v, s3))
+                finally:
+                    self.sol.pop()
+            if (len(results) == 2 and results[0][0] != results[1][0] and self.merging
+                    and self.light(n0, results[0][2], results[1][2])
+                    and not isinstance(results[0][1], Raised) and not isinstance(results[1][1], Raised)):
+                try:
+                    scratch = Ctx(None)
+                    scratch.memo = {}
+                    mv = self.merge_value(cond, results[0][1], results[1][1], scratch)
+                    m = self.merge_states(cond, n0, results[0][2], results[1][2])
+                    m.ctx.add(*scratch.facts)
+                    for bb in scratch.bounds:
+                        m.ctx.bound(bb)
+                except Unmergeable:
+                    m = None
+                if m is not None:
+                    yield mv, m
+                    continue
+            for b, v, s3 in results:
+                with self.activate(s3):
+                    yield v, s3
 
     def e_UnaryOp(self, e, st):
+        if isinstance(e.op, ast.Not):
+            for t, s2 in self.eval_cond(e.operand, st):
+                yield (t if isinstance(t, Raised) else VBool(z3.Not(t))), s2
+            return
         for v, s2 in self.eval(e.operand, st):
             if isinstance(v, Raised):
                 yield v, s2
@@ -514,6 +810,12 @@ class Executor:
             if isinstance(vals, Raised):
                 yield vals, s2
                 continue
+            if any(isinstance(op, (ast.In, ast.NotIn, ast.Lt, ast.LtE, ast.Gt, ast.GtE)) for op in e.ops) and \
+                    any(isinstance(x, VOpt) for x in vals):
+                for fv, s3 in self.force(s2, vals):
+                    cs = [self.compare(s3, op, fv[i], fv[i + 1], e) for i, op in enumerate(e.ops)]
+                    yield VBool(cs[0] if len(cs) == 1 else z3.And(cs)), s3
+                continue
             cs = [self.compare(s2, op, vals[i], vals[i + 1], e) for i, op in enumerate(e.ops)]
             yield VBool(cs[0] if len(cs) == 1 else z3.And(cs)), s2
 
@@ -550,6 +852,10 @@ class Executor:
         return s.a[s.lo]
 
     def identical(self, l, r):
+        if isinstance(l, VOpt) and isinstance(r, VNone):
+            return l.isnone
+        if isinstance(r, VOpt) and isinstance(l, VNone):
+            return r.isnone
         if isinstance(l, VNone) or isinstance(r, VNone):
             return z3.BoolVal(isinstance(l, VNone) and isinstance(r, VNone))
         if isinstance(l, VBool) and isinstance(r, VBool):
@@ -563,6 +869,14 @@ class Executor:
         raise Unsupported(f"identity of {l!r} and {r!r}")
 
     def equal(self, st, l, r):
+        if isinstance(l, VOpt) or isinstance(r, VOpt):
+            ln = l.isnone if isinstance(l, VOpt) else z3.BoolVal(isinstance(l, VNone))
+            rn = r.isnone if isinstance(r, VOpt) else z3.BoolVal(isinstance(r, VNone))
+            lv = l.val if isinstance(l, VOpt) else l
+            rv = r.val if isinstance(r, VOpt) else r
+            if isinstance(lv, VNone) or isinstance(rv, VNone):
+                return z3.And(ln, rn)
+            return z3.Or(z3.And(ln, rn), z3.And(z3.Not(ln), z3.Not(rn), self.equal(st, lv, rv)))
         if isinstance(l, VNone) or isinstance(r, VNone):
             return z3.BoolVal(isinstance(l, VNone) and isinstance(r, VNone))
         if isinstance(l, VInt) and isinstance(r, VInt):
@@ -640,7 +954,8 @@ class Executor:
             if isinstance(vals, Raised):
                 yield vals, s3
             else:
-                yield self.binop(s3, e.op, vals[0], vals[1], e), s3
+                for fv, s4 in self.force(s3, vals):
+                    yield self.binop(s4, e.op, fv[0], fv[1], e), s4
 
     def binop(self, st, op, l, r, node=None):
         if isinstance(l, VInt) and isinstance(r, VInt):
@@ -714,15 +1029,17 @@ class Executor:
                 if isinstance(vals, Raised):
                     yield vals, s3
                     continue
-                lo = None if isinstance(vals[1], VNone) else vals[1]
-                hi = None if isinstance(vals[2], VNone) else vals[2]
-                yield self.slice(s3, vals[0], lo, hi, e), s3
+                for fv, s4 in self.force(s3, vals):
+                    lo = None if isinstance(fv[1], VNone) else fv[1]
+                    hi = None if isinstance(fv[2], VNone) else fv[2]
+                    yield self.slice(s4, fv[0], lo, hi, e), s4
         else:
             for vals, s3 in self.eval_list([e.value, e.slice], st):
                 if isinstance(vals, Raised):
                     yield vals, s3
                 else:
-                    yield from self.index(s3, vals[0], vals[1], e)
+                    for fv, s4 in self.force(s3, vals):
+                        yield from self.index(s4, fv[0], fv[1], e)
 
     def slice(self, st, base, lo, hi, node):
         if isinstance(base, VStr):
@@ -773,7 +1090,11 @@ class Executor:
 
     def e_Attribute(self, e, st):
         for base, s2 in self.eval(e.value, st):
-            yield (base if isinstance(base, Raised) else self.getattr(s2, base, e.attr, e)), s2
+            if isinstance(base, Raised):
+                yield base, s2
+            else:
+                for fv, s3 in self.force(s2, [base]):
+                    yield self.getattr(s3, fv[0], e.attr, e), s3
 
     def getattr(self, st, base, name, node=None):
         if isinstance(base, VObj):
@@ -810,6 +1131,10 @@ class Executor:
                 continue
             f = vals[0]
             nstar = len(vals) - 1 - len(kwnames)
+            if isinstance(f, (Prim, BoundMethod)) and any(isinstance(x, VOpt) for x in vals):
+                for fv, s3 in self.force(s2, vals):
+                    yield from self.call(s3, fv[0], fv[1:1 + nstar], dict(zip(kwnames, fv[1 + nstar:])), e)
+                continue
             args = vals[1:1 + nstar]
             kw = dict(zip(kwnames, vals[1 + nstar:]))
             yield from self.call(s2, f, args, kw, e)
@@ -957,6 +1282,41 @@ class Executor:
         finally:
             self.cur_func, self.cur_file = saved
 
+    def run_range(self, st, f, env, start, end):
+        """execute the top-level statements body[start:end] of f in `env` (already bound);
+        yields (flow, value, state) with flow in next / return / raise; the state's env is
+        the function's frame, so the caller can read its locals"""
+        env["__globals__"] = f.modsrc.mod.__dict__
+        st.env = env
+        saved = (self.cur_func, getattr(self, "cur_file", None))
+        callee = (f"{f.modsrc.modname}:{f.qual}",
+                  os.path.relpath(f.modsrc.path, REPO) if f.modsrc.path.startswith(REPO) else os.path.basename(f.modsrc.path))
+        self.cur_func, self.cur_file = callee
+        try:
+            for flow, val, s2 in self.exec_block(f.node.body[start:end], 0, st):
+                self.cur_func, self.cur_file = saved
+                try:
+                    if flow in ("next", "return", "raise"):
+                        yield flow, val, s2
+                    else:
+                        raise Unsupported(f"{flow} outside loop")
+                finally:
+                    self.cur_func, self.cur_file = callee
+        finally:
+            self.cur_func, self.cur_file = saved
+
+    def bind_params(self, f, args):
+        env = self.bind_args(f.node, list(args), {}, f.self_obj)
+        for k, v in list(env.items()):
+            if v is None:
+                names = [x.arg for x in f.node.args.args]
+                nd = len(f.node.args.defaults)
+                dn = [d for n, d in zip(names[len(names) - nd:], f.node.args.defaults) if n == k]
+                if not dn:
+                    dn = [d for kw, d in zip(f.node.args.kwonlyargs, f.node.args.kw_defaults) if kw.arg == k]
+                env[k] = self.wrap(f.modsrc.mod.__dict__[dn[0].id])
+        return env
+
     # ------------------------------------------------------------ statements
     def exec_block(self, stmts, i, st):
         if i == len(stmts):
@@ -1088,12 +1448,46 @@ class Executor:
             raise Unsupported(f"assignment target {type(tgt).__name__}")
 
     def s_If(self, s, st):
-        for c, s2 in self.eval(s.test, st):
+        for c, s2 in self.eval_cond(s.test, st):
             if isinstance(c, Raised):
                 yield "raise", c.exc, s2
                 continue
-            for b, s3 in self.branch(s2, self.truth(s2, c)):
-                yield from self.exec_block(s.body if b else s.orelse, 0, s3)
+            cond = z3.simplify(c)
+            if z3.is_true(cond) or z3.is_false(cond):
+                yield from self.exec_block(s.body if z3.is_true(cond) else s.orelse, 0, s2)
+                continue
+            f1, f2 = self.split2(s2, cond)
+            if not (f1 and f2):
+                if f1 or f2:
+                    s2.assume(cond if f1 else z3.Not(cond))
+                    yield from self.exec_block(s.body if f1 else s.orelse, 0, s2)
+                continue
+            n0 = (len(s2.ctx.facts), len(s2.ctx.qfacts), len(s2.ctx.bounds))
+            other = s2.fork()
+            normals = []
+            for b, sb, body in ((True, s2, s.body), (False, other, s.orelse)):
+                self.sol.push()
+                try:
+                    sb.assume(cond if b else z3.Not(cond))
+                    for flow, val, s3 in self.exec_block(body, 0, sb):
+                        if flow == "next":
+                            normals.append((b, s3))
+                        else:
+                            yield flow, val, s3
+                finally:
+                    self.sol.pop()
+            if len(normals) == 2 and normals[0][0] != normals[1][0] and self.merging and \
+                    self.light(n0, normals[0][1], normals[1][1]):
+                try:
+                    m = self.merge_states(cond, n0, normals[0][1], normals[1][1])
+                except Unmergeable:
+                    m = None
+                if m is not None:
+                    yield "next", None, m
+                    continue
+            for b, s3 in normals:
+                with self.activate(s3):
+                    yield "next", None, s3
 
     def s_Assert(self, s, st):
         for c, s2 in self.eval(s.test, st):
@@ -1101,7 +1495,7 @@ class Executor:
                 yield "raise", c.exc, s2
                 continue
             self.oblige(s2, "assert", "safety", self.truth(s2, c), s, {"exception": "AssertionError"})
-            s2.ctx.add(self.truth(s2, c))
+            s2.ctx.assume(self.truth(s2, c))
             yield "next", None, s2
 
     def s_Raise(self, s, st):
@@ -1230,11 +1624,20 @@ class Executor:
                 yield flow, val, s2
 
     def loop_spec(self, node):
-        key = (self.cur_func, node.lineno)
-        ords = self.loop_counter.setdefault(self.cur_func, {})
-        if node.lineno not in ords:
-            ords[node.lineno] = len(ords)
-        return self.loop_specs.get((self.cur_func, ords[node.lineno]))
+        """loop contracts are keyed by (function, ordinal of the loop in source order)"""
+        ords = self.loop_counter.get(self.cur_func)
+        if ords is None:
+            ords = self.loop_counter[self.cur_func] = {}
+            modname, qual = self.cur_func.split(":")
+            fnode = ModuleSrc.get(modname).funcs.get(qual)
+            k = 0
+            for n in ast.walk(fnode) if fnode is not None else []:
+                pass
+            loops = sorted((n for n in ast.walk(fnode) if isinstance(n, (ast.For, ast.While))),
+                           key=lambda n: (n.lineno, n.col_offset)) if fnode is not None else []
+            for k, n in enumerate(loops):
+                ords[(n.lineno, n.col_offset)] = k
+        return self.loop_specs.get((self.cur_func, ords.get((node.lineno, node.col_offset))))
 
     def assigned_names(self, stmts):
         names = set()
